@@ -262,6 +262,8 @@ class QuickSampler:
         # Store circuit unitary and input state
         return [
             self.__circuit.U_full,
+            self.__circuit.heralds,
+            self.__circuit.n_modes,
             self.input_state,
             self.post_select,
             self.photon_counting,
